@@ -291,6 +291,31 @@ pub trait ConnectionState {
         ensures r == self.closing_flag();
 }
 
+// real enum h3::error::StreamError (the `Undefined` payload is a `Box<dyn Error>`)
+pub enum StreamError {
+    StreamError { code: Code, reason: String },
+    RemoteTerminate { code: Code },
+    ConnectionError(ConnectionError),
+    HeaderTooBig { actual_size: u64, max_size: u64 },
+    RemoteClosing,
+    Undefined(BoxedError),
+}
+// ASSUMED-FROM-UNIT: TODO(C05/C07) CloseStream::{handle_connection_error_on_stream, handle_quic_stream_error}: they
+// write the shared error cell and wake the driver; they neither open streams nor touch the closing flag
+pub trait CloseStream: ConnectionState {
+    spec fn frame_same(&self, o: &Self) -> bool;
+    fn handle_connection_error_on_stream(&mut self, internal_error: InternalConnectionError) -> (r: StreamError)
+        ensures (*final(self)).frame_same(&*old(self));
+    fn handle_quic_stream_error(&self, error: StreamErrorIncoming) -> (r: StreamError);
+//@extract h3/src/error/connection_error_creators.rs :: trait CloseStream :: fn check_peer_connection_closing
+//@tag C08 C06
+//@ret r
+//@sig
+        ensures self.closing_flag() ==> r matches Some(StreamError::RemoteClosing), // [C08.client.check]
+            !self.closing_flag() ==> r is None,
+//@end
+}
+
 // ---------------------------------------------------------------------------------------------
 // ConnectionInner: the real struct; field types without a role here are opaque
 #[verifier::external_body] #[verifier::reject_recursive_types(S)] #[verifier::reject_recursive_types(B)]
